@@ -368,10 +368,14 @@ theorem append_continues_lower_bytes (ds : List Str) (n : Str) (hds : ∀ c ∈ 
     rw [contains_marker_fillDirs hds hhead _ (renderC_head _ hne)]; exact hmk
   obtain ⟨w1, hrun, hw1⟩ := run_oappendFile_copyUp (idu := idu) (idl := idl) h (ds ++ [n]) hne hcs
     _ hE hup hm1 (by rw [hp0]; exact hup) (parentOk_fillDirs hroot hds hn hanc) e hlow hfile
+  -- the copy-up published over the freshly created file, so a file sits at the key
+  obtain ⟨e1, he1, hft1, _⟩ := find?_memPublish_self
+    ((fillDirs mu (chain [] ds)).insert (renderC (ds ++ [n])) fileEntryNow)
+    (renderC (ds ++ [n])) e.content fileEntryNow (FMap.find?_insert_self _ _ _) rfl
   obtain ⟨e', he', hft, hct⟩ := find?_memPublish_self
     (memPublish ((fillDirs mu (chain [] ds)).insert (renderC (ds ++ [n])) fileEntryNow)
       (renderC (ds ++ [n])) e.content) (renderC (ds ++ [n]))
-    (cursorWrite e.content e.content.length bs)
+    (cursorWrite e.content e.content.length bs) e1 he1 hft1
   refine ⟨_, _, e', ?_, hw1.setU _, he', ?_, hft, by rw [hct, cursorWrite_end]⟩
   · show (do let hd ← Overlay.appendFile _ _; hd.writeAllAndDrop bs : M Unit) w = _
     simp only [bind, M.bind, hrun, run_writeAllAndDrop hw1.hu]
